@@ -131,6 +131,37 @@ def gen(nps, configs, pairs, syncs, driver='bb'):
     return scripts
 
 
+def gen_blocksize(nps=(2,)):
+    """log entries that end just below / exactly at / just above the 8 MiB block size of the log files (shared logs interleave
+    the processes' logical logs in blocks of that size): nothing of such an entry may be lost"""
+    from engine.runner import Case
+    BS = 8388608; HDR = 8
+    cases = []
+    for np in nps:
+        for shared in (1, 0):
+            for n in ((BS - HDR) // 8 - 1, (BS - HDR) // 8, (BS - HDR) // 8 + 1, (2 * BS - HDR) // 8):
+                c = Case('BBBLK-np%d-sh%d-n%d' % (np, shared, n), np, opts=dict(tlimit=60))
+                L = n + 8
+                c.op('*', 'mkdir', path='bb')
+                c.op('*', 'create', f=0, path='a.nc', fmt=5, hints=bb_hints(0, shared, 1))
+                c.op('*', 'def_dim', f=0, name='x', len=L * np); c.op('*', 'def_var', f=0, name='v', xtype='double', dims=[0]); c.op('*', 'def_var', f=0, name='w', xtype='int', dims=[0])
+                c.op('*', 'enddef', f=0)
+                for r in range(np):
+                    c.op(r, 'put', f=0, form='vara', v=0, s=[L * r], c=[n], coll=1, mem='double', tag=3 + r, scale=1)
+                    c.op(r, 'put', f=0, form='vara', v=1, s=[L * r], c=[4], coll=1, mem='int', tag=9 + r, scale=1)
+                c.op('*', 'close', f=0); c.op('*', 'barrier')
+                ll = c.op(0, 'lsdir', path='bb')
+                c.op('*', 'open', f=0, path='a.nc', write=0)
+                ctx = []
+                for r in range(np):
+                    for off in (0, n // 2, n - 3):
+                        ctx.append((c.op('*', 'get', f=0, form='vara', v=0, s=[L * r + off], c=[3], coll=1, mem='double'), 3 + r, off))
+                    ctx.append((c.op('*', 'get', f=0, form='vara', v=1, s=[L * r], c=[4], coll=1, mem='int'), 9 + r, None))
+                c.op('*', 'close', f=0); c.op(0, 'unlink', path='a.nc')
+                cases.append((c, ctx, ll))
+    return cases
+
+
 def masked_logical(s, r):
     """logical file content with every element the model does not define masked (undefined content is never compared)"""
     img = cdf.logical(cdf.decode(bytes.fromhex(r.r(0, s.snapline).get('hex', ''))))
@@ -174,11 +205,29 @@ def main(tier=None):
                 if s.meta['key'] in refimg and img != refimg[s.meta['key']]:
                     ck.violation(('differs_from_default_driver', 'file', 'logical content'), s.case.text(), s.case.name + ': decoded destination file differs from the same program under the default driver')
             except Exception: pass
+    blk = gen_blocksize()
+    kres = runner.run_cases(b['vx'], [x[0] for x in blk], batch=2, timeout=600)
+    for (c, ctx, ll), r in zip(blk, kres):
+        ck.cov['evaluations'] += 1
+        if r.status != 'ok':
+            from engine.script import first_frame
+            ck.violation((r.status, 'log block size', first_frame(r.detail)), c.text(), c.name + ': ' + r.detail[:500]); continue
+        bad = None
+        for ln, tag, off in ctx:
+            for k in r.ranks:
+                o = r.r(k, ln)
+                want = [D.gen(tag, (off or 0) + j, 1) for j in range(3 if off is not None else 4)]
+                if o is None or o.rc != 0 or [int(x) for x in o.vals()] != want: bad = 'rank %d reads %s at offset %s of the region written with tag %d, expected %s' % (k, o.vals() if o is not None else None, off, tag, want); break
+            if bad: break
+        names = [x for x in (r.r(0, ll).get('names') or '').split(',') if x]
+        if not bad and names: bad = 'log directory still holds %s after close' % names
+        if bad: ck.violation(('value', 'log block size', 'entry ends at a multiple of the log block size'), c.text(), c.name + ': ' + bad)
+        ck.outcomes.add(('blk', c.name))
     ck.cov['distinct_nontrivial'] = len(ck.outcomes)
     ck.cov['rule'] = ('programs = ordered pairs of write kinds {blocking collective, strided record put, independent put, iput+wait, bput+wait, put_varn, iput_varn+wait, converting put, put_var1 short record, a record appended by the last process only} with a flush point {none, sync, flush, '
                       'wait_all, redef, close+reopen} between them x flush-buffer size {one entry, one entry + 1 byte, one and a half entries, three entries, unlimited} x shared/per-process logs x del_on_close x np; each program also runs under the default '
                       'driver; own writes are read back before any flush, all writes and the record count on every rank after every flush point, the decoded destination file is compared with the model and with the default-driver '
-                      'file, and the log directory is listed after close')
+                      'file, and the log directory is listed after close; plus log entries ending just below / at / above the 8 MiB log block size with shared and per-process logs on 2 processes')
     ck.sample(bb[0].case.text()[:2000])
     ck.assumptions += ['no element is written twice between flushes (documented limitation)', 'np <= 3']
     runner.cleanup()
